@@ -79,7 +79,11 @@ class Layout(object):
             return sorted(set(os.path.join(root, self.rel_dir(i)) for i in range(self.nfiles)))
         return []
 
+    blank = None          # {file index: text} of files that hold no definition at all (empty, comment only)
+
     def text(self, i, extra_includes=()):
+        if self.blank and i in self.blank:
+            return ''.join('#include "%s"\n' % x for x in extra_includes) + self.blank[i]
         incs = [self.include_text(i, j) for j in self.includes[i]] + list(extra_includes)
         return self.schema.to_prophy(self.files[i], incs)
 
@@ -161,7 +165,7 @@ def _add_transitive_chain(draw, schema, assignment, nfiles):
 
 
 @st.composite
-def layouts(draw, opts=None, min_files=2, max_files=5, transitive_focus=3):
+def layouts(draw, opts=None, min_files=2, max_files=5, transitive_focus=3, blank_focus=0):
     opts = opts or gen.GenOpts(min_decls=4, max_decls=10, const_exprs=True, big_sizes=False)
     schema = draw(gen.schemas(opts))
     n = draw(st.integers(min_files, max_files))
@@ -187,6 +191,16 @@ def layouts(draw, opts=None, min_files=2, max_files=5, transitive_focus=3):
             for j in range(i):
                 if j not in lay.includes[i] and draw(st.integers(0, 2)) == 0:
                     lay.includes[i] = sorted(lay.includes[i] + [j])
+    # a file without any definition (reserved for later, comment only, empty), included by one or more files
+    if blank_focus and draw(st.integers(0, blank_focus - 1)) == 0:
+        k = lay.nfiles
+        lay.nfiles += 1
+        lay.files.append([])
+        lay.includes.append([])
+        lay.blank = {k: draw(st.sampled_from(['', '// reserved\n', '/* nothing\n   yet */\n', '\n\n']))}
+        users = draw(st.lists(st.integers(0, k - 1), min_size=1, max_size=3, unique=True))
+        for u in users:
+            lay.includes[u] = lay.includes[u] + [k]
     # a file is sometimes named after a type it defines (Point.prophy holding struct Point)
     if draw(st.integers(0, 2)) == 0:
         stems = []
